@@ -54,6 +54,7 @@ type genOpts struct {
 	vetoHeavy   bool // ELECTRE: every criterion has q, p and v (several discordant criteria per pair)
 	decimalW    bool // weights are multiples of 0.1: sums that are equal mathematically differ by a few ulps in float64
 	nearTiedW   bool // weights differ by 1e-7 only (distinct, but inside any "reasonable" epsilon)
+	bigNumbers  bool // values and weights around 1e6 that differ by small integers (absolute vs relative tolerances)
 }
 
 type genReq struct {
@@ -180,6 +181,9 @@ func genRequest(r *rand.Rand, o genOpts) *genReq {
 		dup := base != nil && r.Intn(6) == 0 // planted identical alternative
 		for _, id := range ids {
 			v := genValue(r, o.profile, o.negValues)
+			if o.bigNumbers {
+				v = 2450000 + float64(r.Intn(4))
+			}
 			if dup {
 				v = base[id]
 			} else if base != nil && o.profile == profReals && r.Intn(8) == 0 {
@@ -221,6 +225,9 @@ func genRequest(r *rand.Rand, o genOpts) *genReq {
 		if o.nearTiedW {
 			x = 2.5 + float64(i)*1e-7
 		}
+		if o.bigNumbers {
+			x = 1200000 + float64(r.Intn(3))
+		}
 		for o.distinctW && used[x] {
 			x += 0.25
 		}
@@ -251,6 +258,9 @@ func genRequest(r *rand.Rand, o genOpts) *genReq {
 			// any linear function that is non-negative on [0,1] with a non-positive slope (incl. s = 0)
 			k := r.Intn(9)
 			mp["electreDistillation"] = M{"a": -float64(r.Intn(k+1)) / 16, "b": float64(k) / 16}
+			if r.Intn(4) == 0 {
+				mp["electreDistillation"] = M{"b": float64(k) / 16} // a constant function: the slope is simply left out
+			}
 		}
 	case "majorityHeuristic":
 		mp["weights"] = w
@@ -424,6 +434,9 @@ func genBias(r *rand.Rand, name string, g *genReq, o genOpts, lb, ub *int) M {
 				mn = r.Intn(mx + 1)
 			}
 			p["ratio"] = float64(r.Intn(9)) / 8
+			if r.Intn(3) == 0 {
+				p["ratio"] = decimalRatio(r, *ub)
+			}
 			if r.Intn(5) == 0 {
 				delete(p, "ratio")
 			}
@@ -451,6 +464,9 @@ func genBias(r *rand.Rand, name string, g *genReq, o genOpts, lb, ub *int) M {
 		p["ordering"] = ordering
 		setSeed(r, p, "randomSeed")
 		p["ratio"] = float64(r.Intn(9)) / 8
+		if r.Intn(3) == 0 {
+			p["ratio"] = decimalRatio(r, *ub)
+		}
 		if r.Intn(2) == 0 {
 			mn := r.Intn(*lb + 1)
 			p["min"] = mn
@@ -487,7 +503,11 @@ func genBias(r *rand.Rand, name string, g *genReq, o genOpts, lb, ub *int) M {
 			}
 		} else {
 			p["function"] = "expFromZero"
+			// "any parameters": negative query numbers, slopes and multipliers are legal too
 			fp := M{"alpha": 0.03125, "multiplier": float64(1+r.Intn(3)) / 2, "queryNumber": r.Intn(30)}
+			if r.Intn(4) == 0 {
+				fp = M{"alpha": float64(r.Intn(9)-4) / 16, "multiplier": float64(r.Intn(7)-3) / 2, "queryNumber": r.Intn(16) - 8}
+			}
 			if r.Intn(4) == 0 { // absent parameters default to 0, i.e. no fatigue
 				delete(fp, []string{"alpha", "multiplier", "queryNumber"}[r.Intn(3)])
 			}
@@ -533,6 +553,14 @@ func genBias(r *rand.Rand, name string, g *genReq, o genOpts, lb, ub *int) M {
 	}
 	b["props"] = p
 	return b
+}
+
+// decimalRatio: ratios written as decimals or as j/n, whose product with the criteria count hits or barely misses an integer
+func decimalRatio(r *rand.Rand, n int) float64 {
+	if n > 0 && r.Intn(2) == 0 {
+		return float64(r.Intn(n+1)) / float64(n)
+	}
+	return float64(r.Intn(11)) / 10
 }
 
 func refProps(r *rand.Rand, p M, o genOpts) {
